@@ -3,7 +3,7 @@
 # known findings are digest-pinned, and rewrite the digest files from the dumps. Review `git diff --stat findings/` before committing.
 set -e
 cd "$(dirname "$0")/.."
-for spec in "C01 KF-C01-001 KF-C01-002 KF-C01-003 KF-C01-004 KF-C01-005" "C02 KF-C02-001 KF-C02-002 KF-C02-003 KF-C02-004 KF-C02-005" "C04 KF-C04-001 KF-C04-002" "C06 KF-C06-001 KF-C06-002" "C07 KF-C07-001" "C08 KF-C08-001" "C18 KF-C18-001 KF-C18-002"; do
+for spec in "C01 KF-C01-001 KF-C01-002 KF-C01-003 KF-C01-004 KF-C01-005" "C02 KF-C02-001 KF-C02-002 KF-C02-003 KF-C02-004 KF-C02-005" "C04 KF-C04-001 KF-C04-002" "C06 KF-C06-001 KF-C06-002" "C07 KF-C07-001" "C08 KF-C08-001" "C11 KF-C11-001" "C18 KF-C18-001 KF-C18-002" "C20 KF-C20-001"; do
   set -- $spec
   p=$1; shift
   if [ -n "$ONLY" ] && [[ " $ONLY " != *" $p "* ]]; then continue; fi
